@@ -19,6 +19,7 @@ ENGINES = {
     "C07": ("eng_nv", "run"),
     "C09": ("eng_c09", "run"),
     "C10": ("eng_c10", "run"),
+    "C11": ("eng_c11", "run"),
     "C12": ("eng_epr", "run"),
     "C13": ("eng_ctrl", "run"),
     "C14": ("eng_c14", "run"),
